@@ -87,15 +87,71 @@ def prefixText (addr : Bytes) (bits : Nat) : Bytes :=
     renderIP (maskBits addr bits) ++ str "/" ++ decimal bits
   else str "invalid Prefix"
 
+/-! ### JSON string literal, as encoding/json writes a Go string (HTML-safe escaping, invalid
+    UTF-8 replaced by U+FFFD) -/
+
+def hexByte (b : Nat) : Bytes := [UInt8.ofNat (hexDigit (b / 16)).toNat, UInt8.ofNat (hexDigit (b % 16)).toNat]
+
+def isCont (b : UInt8) : Bool := 0x80 ≤ b && b ≤ 0xBF
+
+/-- utf8.DecodeRune on the head of `bs` (non-ASCII lead byte): number of bytes of a valid encoding, 0 when invalid -/
+def utf8Size (bs : Bytes) : Nat :=
+  match bs with
+  | b0 :: rest =>
+    if 0xC2 ≤ b0 ∧ b0 ≤ 0xDF then
+      (match rest with | b1 :: _ => if isCont b1 then 2 else 0 | _ => 0)
+    else if 0xE0 ≤ b0 ∧ b0 ≤ 0xEF then
+      (match rest with
+       | b1 :: b2 :: _ =>
+         let lo : UInt8 := if b0 = 0xE0 then 0xA0 else 0x80
+         let hi : UInt8 := if b0 = 0xED then 0x9F else 0xBF
+         if lo ≤ b1 ∧ b1 ≤ hi ∧ isCont b2 then 3 else 0
+       | _ => 0)
+    else if 0xF0 ≤ b0 ∧ b0 ≤ 0xF4 then
+      (match rest with
+       | b1 :: b2 :: b3 :: _ =>
+         let lo : UInt8 := if b0 = 0xF0 then 0x90 else 0x80
+         let hi : UInt8 := if b0 = 0xF4 then 0x8F else 0xBF
+         if lo ≤ b1 ∧ b1 ≤ hi ∧ isCont b2 ∧ isCont b3 then 4 else 0
+       | _ => 0)
+    else 0
+  | [] => 0
+
+def jsonQuoteBody : Nat → Bytes → Bytes
+  | 0, _ => []
+  | _, [] => []
+  | fuel + 1, b :: rest =>
+    if b < 0x80 then
+      let esc : Bytes :=
+        if b = 0x22 ∨ b = 0x5c then [0x5c, b]
+        else if b = 0x08 then str "\\b"
+        else if b = 0x0c then str "\\f"
+        else if b = 0x0a then str "\\n"
+        else if b = 0x0d then str "\\r"
+        else if b = 0x09 then str "\\t"
+        else if b < 0x20 ∨ b = 0x3c ∨ b = 0x3e ∨ b = 0x26 then str "\\u00" ++ hexByte b.toNat
+        else [b]
+      esc ++ jsonQuoteBody fuel rest
+    else
+      let n := utf8Size (b :: rest)
+      if n = 0 then str "\\ufffd" ++ jsonQuoteBody fuel rest
+      else
+        let enc := (b :: rest).take n
+        if enc = [0xE2, 0x80, 0xA8] then str "\\u2028" ++ jsonQuoteBody fuel (rest.drop (n - 1))
+        else if enc = [0xE2, 0x80, 0xA9] then str "\\u2029" ++ jsonQuoteBody fuel (rest.drop (n - 1))
+        else enc ++ jsonQuoteBody fuel (rest.drop (n - 1))
+
+def jsonQuote (b : Bytes) : Bytes := [0x22] ++ jsonQuoteBody (b.length + 1) b ++ [0x22]
+
 /-! ### RFC 3339 -/
 
-/-- days since 1970-01-01 → (year, month, day) (civil-from-days, proleptic Gregorian) -/
-def civil (days : Nat) : Nat × Nat × Nat :=
+/-- days since 1970-01-01 (may be negative) → (year, month, day) (civil-from-days, proleptic Gregorian) -/
+def civil (days : Int) : Int × Nat × Nat :=
   let z := days + 719468
-  let era := z / 146097
-  let doe := z - era * 146097
+  let era := z.fdiv 146097
+  let doe := (z - era * 146097).toNat
   let yoe := (doe - doe / 1460 + doe / 36524 - doe / 146096) / 365
-  let y := yoe + era * 400
+  let y : Int := (yoe : Int) + era * 400
   let doy := doe - (365 * yoe + yoe / 4 - yoe / 100)
   let mp := (5 * doy + 2) / 153
   let d := doy - (153 * mp + 2) / 5 + 1
@@ -104,18 +160,26 @@ def civil (days : Nat) : Nat × Nat × Nat :=
 
 def pad2 (n : Nat) : Bytes := if n < 10 then str "0" ++ decimal n else decimal n
 def pad4 (n : Nat) : Bytes := str (String.ofList (List.replicate (4 - (toString n).length) '0')) ++ decimal n
+/-- the year as time.Format writes it: at least four digits, a minus sign for negative years -/
+def yearText (y : Int) : Bytes := if y < 0 then str "-" ++ pad4 y.natAbs else pad4 y.toNat
 
-/-- time.Unix(sec, nsec).UTC().Format(time.RFC3339Nano): fraction with trailing zeros removed -/
-def rfc3339 (sec nsec : Nat) : Bytes :=
-  let (y, mo, d) := civil (sec / 86400)
-  let rem := sec % 86400
+/-- time.Unix(sec, nsec).UTC().Format(time.RFC3339Nano) for 0 ≤ nsec < 1e9: fraction with trailing zeros removed -/
+def rfc3339 (sec : Int) (nsec : Nat) : Bytes :=
+  let (y, mo, d) := civil (sec.fdiv 86400)
+  let rem := (sec.emod 86400).toNat
   let frac : Bytes :=
     if nsec = 0 then [] else
       let digits := (str (String.ofList (List.replicate (9 - (toString nsec).length) '0'))) ++ decimal nsec
       let trimmed := (digits.reverse.dropWhile (· == 48)).reverse
       str "." ++ trimmed
-  pad4 y ++ str "-" ++ pad2 mo ++ str "-" ++ pad2 d ++ str "T" ++ pad2 (rem / 3600) ++ str ":" ++ pad2 (rem % 3600 / 60) ++
+  yearText y ++ str "-" ++ pad2 mo ++ str "-" ++ pad2 d ++ str "T" ++ pad2 (rem / 3600) ++ str ":" ++ pad2 (rem % 3600 / 60) ++
     str ":" ++ pad2 (rem % 60) ++ frac ++ str "Z"
+
+/-- package time keeps seconds since the year -292277022399 in a uint64: earlier instants wrap around -/
+def goTimeSec (s : Int) : Int := if s < -9223372028715321600 then s + 2 ^ 64 else s
+
+/-- int64(x) of a uint64 -/
+def asInt64 (n : Nat) : Int := if n < 2 ^ 63 then (n : Int) else (n : Int) - 2 ^ 64
 
 /-! ### names -/
 
